@@ -504,7 +504,8 @@ class OnlineGen:
                     op["ts"] = "wrong"
             return op
         if k == "append_wfm":
-            same = [jj for jj, o in enumerate(pool.objs) if jj != j and kind_of(o) == kind]
+            # the receiver itself may be among its sources (w.append([o, w])): it contributes its samples as they were
+            same = [jj for jj, o in enumerate(pool.objs) if (jj != j or rng.random() < 0.15) and kind_of(o) == kind]
             good = [jj for jj in same if pool.objs[jj].dtype == w.dtype and (kind != "D" or pool.objs[jj].signal_count == ncols)]
             if not same:
                 return self.new_op(pool)
